@@ -2017,8 +2017,12 @@ impl Fs {
                 return true;
             }
             match op {
-                // Directory's own creation
+                // Directory's own creation - and, if the name was removed and
+                // re-created since, the removal(s) that precede it: flushing
+                // the creation alone would leave a stale RemoveDir behind
+                // that deletes the directory again
                 PendingOp::CreateDir { path: p, .. } if p == path => true,
+                PendingOp::RemoveDir { path: p } if p == path => true,
                 // Files/dirs/symlinks/hardlinks created in this directory
                 PendingOp::CreateFile { path: p, .. } => p.parent() == Some(path),
                 PendingOp::CreateDir { path: p, .. } => p.parent() == Some(path),
@@ -2050,6 +2054,10 @@ impl Fs {
                 PendingOp::CreateDir { path: p, .. } if p == path => {
                     // Directory's own creation - mark it as synced
                     self.synced_entries.insert(p.clone());
+                }
+                PendingOp::RemoveDir { path: p } if p == path => {
+                    // An earlier incarnation of this directory
+                    self.synced_entries.swap_remove(p);
                 }
                 PendingOp::CreateDir { path: p, .. } if p.parent() == Some(path) => {
                     dir_modified = true;
